@@ -80,7 +80,7 @@ func init() {
 func init() {
 	checks = append(checks, &CheckSpec{
 		Prop:    "C11",
-		Harness: []string{"c06_expr.go", "c05_fixpoint.go", "c11_limits.go", "c01_chain.go", "authz_gen.go", "c11_authz.go"},
+		Harness: hb("c06_expr.go", "c05_fixpoint.go", "c11_limits.go", "c11_authz.go"),
 		Entries: []EntrySpec{
 			{Pkg: "datalog", Func: "VerifC11Limits", Quick: p("depth", 3), Thorough: p("depth", 4), Covers: []string{"returned", "success", "error"}},
 			{Pkg: "datalog", Func: "VerifC11Outcomes", Quick: p(), Thorough: p(), Covers: []string{"returned", "invalid-rule", "expr-error"}},
